@@ -222,14 +222,20 @@ def lens_vcs():
                           z3.Implies(S(t) < t, z3.And(iseos(S(t)), c(t - 1) >= 1)),
                           z3.Implies(z3.And(S(t) == t, t >= 1), c(t - 1) == 0))
 
-        # instances of the primitives' recurrence contracts at the induction variable (FORALL-elimination)
-        inst = z3.And(c(0) == b(iseos(0)), z3.Implies(Tk >= 1, c(Tk) == c(Tk - 1) + b(iseos(Tk))), S(0) == 0, S(Tk + 1) == S(Tk) + b(c(Tk) == 0))
+        # instances of the primitives' recurrence contracts at the induction variable (FORALL-elimination), built by the SAME builders
+        # as the contracts the executed code was given (vf/pyvc/symvec.py) - so a change of what the code asks of cumsum / sum (another
+        # dtype, another operand) changes these instances with it
+        (c_base, c_step), (s_base, s_step) = defs["cumsum_instances"], defs["partial_sum_instances"]
+        inst = z3.And(c_base, c_step(Tk - 1), s_base, s_step(Tk))
+        # the summed and the accumulated vectors are what the contract is about: eos indicator, and "count so far is zero"
+        shape_ok = z3.And(p.ghost["defs"]["cumsum_operand"](J) == iseos(J), p.ghost["defs"]["partial_sum_operand"](J) == (c(J) == 0))
         r = p.value
         return [("induction.base", inv(z3.IntVal(0), J)),
                 ("induction.step", z3.Implies(z3.And(0 <= Tk, Tk < T, inst, inv(Tk, J)), inv(Tk + 1, J))),
                 ("induction.use", z3.Implies(z3.And(r == S(T), inv(T, J)),
                                              z3.And(0 <= r, r <= T, z3.Implies(z3.And(0 <= J, J < r), z3.Not(iseos(J))), z3.Implies(r < T, iseos(r))))),
-                ("result_is_partial_sum_at_T", r == S(T))]
+                ("result_is_partial_sum_at_T", r == S(T)),
+                ("operands_are_the_eos_indicator_and_the_zero_count_test", shape_ok)]
 
     return [VC("C01.P.lens_first_eos", "_lens_from_eos[symbolic length]", M, "_lens_from_eos", thunk, pre=[T >= 0], posts=[("first_eos_or_full_length", post)],
                twins=[("last_eos", lambda p: z3.Implies(z3.And(0 <= J, J < T, tok(J) == EOS), J <= p.value) if api.returns(p) and ip.is_z3(p.value) else None)],
